@@ -175,6 +175,20 @@ static void run_case(Ctx& c, uint64_t idx) {
     if (idx % 3 == 1) { Runner<ApiW> w; w.run(c, p); } else { Runner<ApiA> a; a.run(c, p); }
     if (idx % 700 == 5) c.sample(CALLNAME[p.call], esc(p.a) + (p.b.empty() ? "" : " | " + esc(p.b)) + fmt(" mask=0x%x flag=%d", p.mask, p.flag));
 }
-static Monitor mon = {"fault", "C14: allocation-failure enumeration over every request index of every call, fail-once and fail-from-k", "C14", ncases, run_case, nullptr};
+static void fuzz_one(Ctx& c, const unsigned char* d, size_t n) {
+    if (n < 2) return; if (n > 300) n = 300;
+    Plan p; p.call = (Call)(d[0] % C_NCALLS); unsigned f = d[1]; p.flag = f & 3; p.owned = f & 4; p.mask = (f & 8) ? 63u : (f >> 2) & 63u; p.dflt = false;
+    Str rest((const char*)d + 2, n - 2); for (auto& ch : rest) if (!ch) ch = 'x';
+    size_t e;
+    switch (p.call) {
+    case C_PARSE: case C_DISSECT: p.a = rest; break;
+    case C_ADDBASE: case C_REMOVEBASE: fuzz_split2((const unsigned char*)rest.data(), rest.size(), &p.a, &p.b); if (!dfa_uriref(p.a, &e) || !dfa_uriref(p.b, &e)) return; p.flag &= 1; break;
+    case C_NORMALIZE: case C_MAKEOWNER: p.a = rest; if (!dfa_uriref(p.a, &e)) return; break;
+    default: { size_t a = 0; while (a <= rest.size() && p.items.size() < 6) { size_t q = rest.find('\x01', a); Str it = rest.substr(a, q == Str::npos ? Str::npos : q - a); QItem qi; size_t v = it.find('\x02'); qi.key = it.substr(0, v); qi.hasValue = v != Str::npos; if (qi.hasValue) qi.value = it.substr(v + 1); p.items.push_back(qi); if (q == Str::npos) break; a = q + 1; } p.a = rest; } break;
+    }
+    if (p.call == C_DISSECT) p.mask &= 3;
+    if (f & 128) { Runner<ApiW> w; w.run(c, p); } else { Runner<ApiA> a; a.run(c, p); }
+}
+static Monitor mon = {"fault", "C14: allocation-failure enumeration over every request index of every call, fail-once and fail-from-k", "C14", ncases, run_case, nullptr, fuzz_one};
 VF_REGISTER(mon);
 }
